@@ -114,6 +114,40 @@ def p1_p2(ctx, fx, I, B):
                         "(neither visible nor disclosable)" % ("the claims are iterated through %s" % drop if drop else "an iteration can end before the recursive call"), line=line_)
         else:
             ctx.ok("C05.P1", B, "child-accounted", "every iteration of the walk passes the recursive marker; the claims are iterated as they are", line=line_)
+    # who may touch the visible container: the map / vector the builder returns is written only by inserts / pushes (members, elements, the
+    # `_sd` list) and by the removal of the reserved `_sd` slot by its name — a `retain`, a `remove` by computed key, a `clear`, a `truncate`
+    # takes claims out of the payload that the strategy did not designate
+    rvl = None
+    for e_ in cfg.exit_sites(B):
+        if "rv" in e_:
+            opv = (e_["rv"].get("ops") or [None])[0] if isinstance(e_["rv"], dict) else None
+            plv = (opv.get("move") or opv.get("copy")) if isinstance(opv, dict) else None
+            if plv and not plv["proj"]:
+                rvl = imodel.root_local(B, plv["local"], e_["bb"], e_["idx"], 0) or plv["local"]
+    if rvl is not None:
+        bad_w = None
+        nw = 0
+        for b_, t_ in B.calls():
+            if t_.get("resolved_local") or imodel.receiver_local(B, b_, 0) != rvl:
+                continue
+            nm_ = t_.get("name")
+            if nm_ in ("insert", "push", "extend", "append", "entry", "get", "get_mut", "contains_key", "len", "is_empty", "iter", "keys", "values", "reserve", "with_capacity", "new",
+                       "deref", "as_ref", "borrow", "clone", "sort_keys", "index", "or_insert", "or_insert_with"):
+                nw += 1
+                continue
+            if nm_ in ("shift_remove", "remove", "swap_remove", "shift_remove_entry", "remove_entry"):
+                n_ = fv.call_node(b_)
+                if len(n_.kids) > 1 and const_value(n_.kids[1]) in ("_sd",):
+                    nw += 1
+                    continue
+            if nm_ in ("retain", "retain_mut", "clear", "truncate", "drain", "pop", "shift_remove", "remove", "swap_remove", "shift_remove_entry", "remove_entry", "split_off", "dedup",
+                       "dedup_by", "dedup_by_key", "swap_remove_entry", "take", "replace"):
+                bad_w = (b_, nm_)
+        if bad_w:
+            ctx.finding("C05.P1", B, "visible-container-writes", "the visible container is also changed by `%s`: members / elements the strategy did not designate can be taken out of the issued payload "
+                        "(e.g. every null-valued claim)" % bad_w[1], line=B.term(bad_w[0]).get("line"))
+        else:
+            ctx.ok("C05.P1", B, "visible-container-writes", "the visible container is written only by inserts / pushes and the removal of the reserved `_sd` slot by name (%d call(s))" % nw)
     sdk = []
     for (bb, tt, ft, c) in bool_switches(B):
         if c.kind == "call" and c.d["term"].get("resolved_local") and (B.local_ty(c.d["term"]["dest"]["local"]) == "bool") and len(c.kids) == 2 and peel(c.kids[0]).kind == "param":
